@@ -361,6 +361,7 @@ type guard struct {
 	cond ssa.Value // the If condition
 	val  bool      // its value on the dominating edge
 	blk  *ssa.BasicBlock
+	via  *ssa.Call // set when the fact was read off the body of a boolean helper: cond lives in that helper's frame
 }
 
 // guardsOf returns every branch condition that dominates b (edge-dominance), innermost first.
@@ -412,7 +413,7 @@ func (g guard) asCmp() (cmpFact, bool) {
 		break
 	}
 	b, ok := v.(*ssa.BinOp)
-	var via *ssa.Call
+	via := g.via
 	if !ok {
 		if hb, isHelper := boolHelperCmp(v); isHelper {
 			b, ok = hb, true
@@ -560,6 +561,31 @@ func expandGuard(g guard, depth int) []guard {
 		return []guard{g}
 	}
 	v, val := g.boolVal()
+	// a boolean helper with a single return (`func (it *iter) exhausted() bool { return it.d.Len() == 0 || it.done }`): what
+	// its result being val says about the values in ITS frame (consumers map them through guard.via / cmpFact.via)
+	if hc, isCall := v.(*ssa.Call); isCall && g.via == nil {
+		if cal := staticCallee(&hc.Call); cal != nil && cal.Blocks != nil && hc.Parent() != nil && rootFn(origin(cal)).Pkg == rootFn(hc.Parent()).Pkg {
+			o := origin(cal)
+			var rets []*ssa.Return
+			instrs(o, func(_ *ssa.BasicBlock, _ int, in ssa.Instruction) {
+				if r, ok := in.(*ssa.Return); ok {
+					rets = append(rets, r)
+				}
+			})
+			if len(rets) == 1 && len(rets[0].Results) == 1 {
+				if _, isPhi := rets[0].Results[0].(*ssa.Phi); isPhi {
+					var out []guard
+					for _, g2 := range expandGuard(guard{cond: rets[0].Results[0], val: val, blk: rets[0].Block()}, depth+1) {
+						g2.via = hc
+						out = append(out, g2)
+					}
+					if len(out) > 0 {
+						return append([]guard{g}, out...) // the call itself stays a fact (rules that know the helper by name)
+					}
+				}
+			}
+		}
+	}
 	phi, ok := v.(*ssa.Phi)
 	if !ok {
 		return []guard{g}
